@@ -391,6 +391,22 @@ exp(N, "harmless", "conditional expression",
     "    if ctx.config_filepath.exists():\n        cfg_content = \"\\n\" + cfg_content", "    cfg_content = (\"\\n\" + cfg_content) if ctx.config_filepath.exists() else cfg_content")
 
 
+# ---- whole-function rewrites of the independent refactoring `harmless3` (config_harmless3_funcs.py) --------------------
+def _harmless3():
+    import ast as _ast
+    import config_harmless3_funcs as h3
+    src = open("/repo/src/bumpver/config.py", encoding="utf-8").read()
+    segs = {n.name: _ast.get_source_segment(src, n) for n in _ast.parse(src).body if isinstance(n, _ast.FunctionDef)}
+    for pyname, newtext in h3.FUNCS.items():
+        if segs.get(pyname) and segs[pyname] != newtext:
+            exp(h3.TIE[pyname], "harmless", "harmless3: `%s` as rewritten by the independent refactoring" % pyname,
+                segs[pyname], newtext)
+
+
+sys.path.insert(0, HERE)
+_harmless3()
+
+
 def run(cmd, **kw):
     return subprocess.run(cmd, stdout=subprocess.PIPE, stderr=subprocess.STDOUT, text=True, **kw)
 
